@@ -146,6 +146,34 @@ def run(rep: core.Report, rid: str, floor: int = 6):
     run_calls(rep, rid)
 
 
+def run_int_calls(rep: core.Report, rid: str, scope: list[str], floor: int = 0):
+    """`int(x)` of a determinant, an inverse, a norm or a square root: integer only up to rounding error, truncated
+    toward zero.  (Quotients are left out: `int(a / b)` is a deliberate floor in this code base.)"""
+    rep.rule(rid, "int(x) of a float that is an integer only up to rounding error (np.linalg.det, an inverse, a norm, a square root) goes through a rounding call first: np.linalg.det of diag(2, 2, 2) is 7.999999999999998 and int() makes 7 of it, so one block of atoms is missing from what is written (built-in pair of examples keeps the rule alive)", floor)
+    ctrl = ast.parse("def bad(m):\n    return int(abs(np.linalg.det(m)))\ndef good(m):\n    return int(np.rint(abs(np.linalg.det(m))))\n")
+    got = {}
+    for fn in [n for n in ast.walk(ctrl) if isinstance(n, ast.FunctionDef)]:
+        for n in ast.walk(fn):
+            if isinstance(n, ast.Call) and core.src(n.func) == "int" and len(n.args) == 1:
+                got[fn.name] = classify(n.args[0], {})[0]
+    if got != {"bad": "float", "good": "rounded"}:
+        raise core.AnalysisError(f"{rid}: the rule no longer classifies its own two examples ({got})")
+    for rel in scope:
+        tree = core.parse(rel)
+        for fn in [n for n in ast.walk(tree) if isinstance(n, ast.FunctionDef)]:
+            env = _assigned_once(fn)
+            for n in ast.walk(fn):
+                if isinstance(n, ast.Call) and core.src(n.func) == "int" and len(n.args) == 1:
+                    op = n.args[0]
+                    while isinstance(op, ast.Call) and core.src(op.func) in ("abs", "np.abs", "float") and op.args:
+                        op = op.args[0]
+                    kind, why = classify(op, env)
+                    if kind == "unknown" or (kind == "float" and why in ("true division",) or (why or "").startswith("float literal")):
+                        continue
+                    rep.instance(rid, rel, core.qualname_of(fn), core.norm(core.src(n), 90), kind == "rounded",
+                                 f"'{core.norm(core.src(n), 70)}' truncates a float ({why}) that is an integer only up to rounding error: for some integer matrices the value lands just below the integer (7.999999999999998 for diag(2, 2, 2)) and the count is one too small", line=n.lineno)
+
+
 def run_calls(rep: core.Report, rid: str):
     """Interprocedural half: a function that converts a parameter to an integer dtype without rounding relies on its
     callers; every call site in the scope whose argument is a float expression (inverse, quotient) not wrapped in a
